@@ -8,6 +8,9 @@ Streams
             INSTALLED in a rig handler and driven with the matching line/call events (3 hits each, scripted clock):
             snapshot pushed / log emitted / metric call / span opened are observed per tracepoint id and per place;
   register  the same tracepoints registered in code (TracepointConfigService.add_custom) and driven the same way.
+  regodd    registrations OUTSIDE the text-valued domain of the theorems (fire_count None / a list, fire_period inf,
+            span a list, stage None, the caller's watches list mutated afterwards): labelled, known-finding candidates
+            C11/register-non-text-limit and C11/register-aliases-watches, judged by the statement, not modelled;
   argint    argument VALUES read as integers: odd texts (' 3 ', non-ASCII digits, '1_0', '+2', '1e3', ''), None, bool, int,
             float, nan, inf, other objects through the real TracePointConfig.get_arg_int / fire_count and
             LocationAction.fire_count / fire_period, against the translated get_arg_int / __get_int and an int()-free
@@ -581,6 +584,40 @@ def run_providers(case):
         rig.close()
 
 
+def type_name_of(m):
+    """the type TEXT a registration in code writes: the case's own `type_name`, else the documented name of the number"""
+    return m['type_name'] if 'type_name' in m else ['COUNTER', 'GAUGE', 'HISTOGRAM', 'SUMMARY'][m['type'] % 4]
+
+
+def raw_definitions(ms):
+    """READY-MADE MetricDefinition objects, as a program calling register_tracepoint builds them — NOT through the
+    service's protobuf converter (the register path has no enum conversion)"""
+    from deep.api.tracepoint.tracepoint_config import MetricDefinition, LabelExpression
+    out = []
+    for m in ms:
+        labels = []
+        for lb in m['labels']:
+            st = lb['static']
+            if st is not None:
+                (k, v), = st.items()
+                st = struct.unpack('>d', struct.pack('>Q', v))[0] if k == 'dbl' else bytes(v) if k == 'bytes' else v
+            labels.append(LabelExpression(lb['key'], st, lb['expression']))
+        out.append(MetricDefinition(m['name'], type_name_of(m), labels, m['expression'], m['namespace'], m['help'],
+                                    m['unit']))
+    return out
+
+
+def spec_trigger_code(tp):
+    """the table for a registration: the definitions are taken as given (type TEXT included), nothing is converted"""
+    t = spec_trigger(dict(tp, metrics=[dict(m, type=0) for m in tp['metrics']]))
+    if t is not None:
+        for a in t['actions']:
+            if a['type'] == 'Metric':
+                for d, m in zip(a['cfg']['metrics'], tp['metrics']):
+                    d['type'] = type_name_of(m)
+    return t
+
+
 def run_both(case):
     """the same tracepoint once from a poll response, once registered in code"""
     import deep.grpc as g
@@ -596,7 +633,7 @@ def run_both(case):
             obs['service'] = {'raised': f'{type(e).__name__}: {e}'}
         try:
             rid = svc.add_custom(fresh(tp['path']), tp['line'], fresh(tp['args']), fresh(tp['watches']),
-                                 real_metrics(tp['metrics']))
+                                 raw_definitions(tp['metrics']))
             code = [dump_trigger(t) for t in list(svc._custom)]
             for d in code:
                 for a in (d or {}).get('actions', []):
@@ -787,8 +824,88 @@ def oracle_argint(case, obs):
     return v
 
 
+# ---- registrations OUTSIDE the text-valued domain of the theorems (labelled stream, known-finding candidates) ---------
+REGODD = {
+    'fire_count_none': ({'fire_count': None}, 'C11/register-non-text-limit'),
+    'fire_period_inf': ({'fire_period': float('inf')}, 'C11/register-non-text-limit'),
+    'fire_count_list': ({'fire_count': ['2']}, 'C11/register-non-text-limit'),
+    'span_list': ({'span': ['method']}, None),
+    'stage_none': ({'stage': None}, None),
+    'watches_alias': ({}, 'C11/register-aliases-watches'),
+}
+
+
+def run_regodd(case):
+    rig = ClockedRig(span=True)
+    try:
+        svc = rig.config.tracepoints
+        svc.set_task_handler(Inline())
+        args = dict(REGODD[case['what']][0])
+        watches = ['x']
+        obs = {}
+        try:
+            svc.add_custom('host.py', 7, args, watches, [])
+        except Exception as e:  # noqa: B902
+            return {'raised': f'add_custom: {type(e).__name__}: {e}'}
+        if case['what'] == 'watches_alias':
+            watches.append('y')               # the caller goes on using ITS list
+        obs['installed'] = [[a.action_type.name for a in t._Trigger__actions] for t in svc._custom]
+        try:
+            for ts in (1000, 2 * 10 ** 9):
+                rig.clock = ts
+                frame, event = frame_for(['line', 'host.py', 7], {'x': 5, 'y': [1, 2]})
+                rig.handler.trace_call(frame, event, None)
+                rig.handler.trace_call(MockFrame('/app/host.py', 'host_fn', 900000, {'x': 5}), 'line', None)
+        except BaseException as e:  # noqa: B902
+            obs['raised'] = f'trace_call: {type(e).__name__}: {e}'
+        obs['snaps'] = len(rig.push.pushed)
+        obs['watches'] = [[w.expression for w in sn.watches if w.source == 'WATCH'] for sn in rig.push.pushed][:1]
+        obs['spans'] = len([e for e in rig.span.events if e[0] == 'open'])
+        return obs
+    finally:
+        rig.close()
+
+
+def oracle_regodd(case, obs):
+    """the statement, read for a registration: the arguments ask for a snapshot with the registration's watches (as
+    they were when it was registered), limits that are not integer text behave as the defaults (fire_count 1: the first
+    hit collects, the second does not), a span iff `span` is given; an unknown `stage` installs nothing"""
+    v = []
+    if 'raised' in obs:
+        v.append('raised: ' + obs['raised'])
+    if 'snaps' not in obs:
+        return v
+    what = case['what']
+    want_snaps = 0 if what == 'stage_none' else 1
+    if obs['snaps'] != want_snaps:
+        v.append(f'registration with {REGODD[what][0]!r}: {obs["snaps"]} snapshot(s) over two hits, its arguments ask for '
+                 f'{want_snaps} (installed actions: {obs["installed"]})')
+    if obs['watches'] and obs['watches'][0] != ['x']:
+        v.append(f'registered with watches [\'x\']; the snapshot evaluated {obs["watches"][0]} — the caller\'s later append '
+                 f'changed the installed tracepoint')
+    if what == 'span_list' and obs['spans'] != 1:
+        v.append(f'span argument given: {obs["spans"]} spans opened over two hits, the default fire count asks for 1')
+    return v
+
+
+def known_replays():
+    return [('C11/register-non-text-limit',
+             'register_tracepoint(args={"fire_count": None}): installed, but fire_count raises TypeError at every hit (only '
+             'ValueError is caught): the tracepoint never collects and nothing tells the caller',
+             {'kind': 'regodd', 'what': 'fire_count_none'}),
+            ('C11/register-aliases-watches',
+             'add_custom keeps the caller\'s watches LIST (the service path copies it): appending to it afterwards changes the '
+             'installed tracepoint', {'kind': 'regodd', 'what': 'watches_alias'})]
+
+
+def known_finding(case, obs):
+    return REGODD[case['what']][1] if case.get('kind') == 'regodd' else None
+
+
 def run_impl(case):
     k = case['kind']
+    if k == 'regodd':
+        return run_regodd(case)
     if k == 'argint':
         return run_argint(case)
     if k == 'redeliver':
@@ -874,6 +991,8 @@ def oracle(case, obs):
         return oracle_providers(case, obs)
     if k == 'argint':
         return oracle_argint(case, obs)
+    if k == 'regodd':
+        return oracle_regodd(case, obs)
     if k == 'redeliver':
         if 'raised' in obs:
             return ['the configuration was lost / the handler raised: ' + obs['raised']]
@@ -898,8 +1017,8 @@ def oracle(case, obs):
                                      f'{phase_tss(place, p)}; that action\'s own fire count / fire period ask for {ee.get(kind, 0)}')
         return v[:8]
     if k == 'both':
-        exp = spec_trigger(case['tp'])
         for path in ('service', 'code'):
+            exp = spec_trigger(case['tp']) if path == 'service' else spec_trigger_code(case['tp'])
             got = obs[path]
             if isinstance(got, dict):
                 v.append(f'{path} path raised: {got["raised"]}')
@@ -1005,8 +1124,10 @@ def model_request(case, obs):
                 'line': 7, 'args': {}, 'watches': case['watches'], 'metrics': ONE_METRIC if case['metrics'] else []}
     if k == 'build':
         return dict(case['tp'], op='build')
+    if k == 'regodd':
+        return None          # outside the text-valued domain of the model
     if k == 'both':
-        return dict(case['tp'], op='build')
+        return dict(case['tp'], op='both', defs=[dict(m, type=type_name_of(m)) for m in case['tp']['metrics']])
     if k == 'argint':
         return {'op': 'argint', 'args': {a: model_val(e) for a, e in case['args'].items()}, 'name': case['name'],
                 'default': case['default']}
@@ -1041,9 +1162,8 @@ def compare(case, obs, resp):
             f'second response: implementation {json.dumps(obs["triggers"], sort_keys=True)[:400]} model '
             f'{json.dumps(resp["triggers"], sort_keys=True)[:400]}']
     if k == 'both':
-        want = [] if resp['trigger'] is None else [resp['trigger']]
         return [f'{path} path: implementation {json.dumps(obs[path], sort_keys=True)[:300]} model '
-                f'{json.dumps(want, sort_keys=True)[:300]}' for path in ('service', 'code') if obs[path] != want]
+                f'{json.dumps(resp[path], sort_keys=True)[:300]}' for path in ('service', 'code') if obs[path] != resp[path]]
     if k == 'table':
         d = []
         for i, (a, b) in enumerate(zip(obs['rows'], resp['rows'])):
@@ -1365,13 +1485,24 @@ def gen(rng, tier):
     yield from table_cases()
     while True:
         r = rng.random()
-        if r < 0.10:
+        if r < 0.02:
+            yield {'kind': 'regodd', 'what': rng.choice(sorted(REGODD))}
+        elif r < 0.10:
             yield gen_redeliver(rng)
         elif r < 0.22:
             yield gen_argint(rng)
         elif r < 0.27:
             tp, _ = gen_tp(rng, 0)
             tp['args'].pop('condition', None)
+            if rng.random() < 0.7 and not tp['metrics']:
+                tp['metrics'] = [gen_metric(rng, 'm_0_%d' % j) for j in range(rng.choice([1, 2]))]
+            for m in tp['metrics']:
+                r2 = rng.random()
+                if r2 < 0.3:        # a type NUMBER the installed protobuf does not know (service side cannot convert)
+                    m['type'] = rng.choice([4, 7, 9])
+                    m['type_name'] = rng.choice(['BOGUS', 'COUNTER'])
+                elif r2 < 0.6:       # a type TEXT no provider knows / odd case (the register side converts nothing)
+                    m['type_name'] = rng.choice(['BOGUS', 'counter', 'Gauge', '', 'HISTOGRAM '])
             yield {'kind': 'both', 'tp': tp}
         elif r < 0.35:
             yield gen_providers(rng)
@@ -1439,6 +1570,8 @@ def corpus():
 # ------------------------------------------------------------------------------------- bookkeeping
 def label(case, obs):
     k = case['kind']
+    if k == 'regodd':
+        return 'regodd/' + case['what']
     if k == 'argint':
         def cls(e):
             return 'absent' if e == 'absent' else 'none' if e is None else e if isinstance(e, str) else list(e)[0]
@@ -1452,7 +1585,9 @@ def label(case, obs):
             'changed' if sorted(case['first']) != sorted(case['second']) else 'same-set',
             max([n_actions(case['tps'][i]) for i in both] or [0]))
     if k == 'both':
-        return 'both/' + ('uninterpretable' if spec_trigger(case['tp']) is None else
+        sv, cd = spec_trigger(case['tp']), spec_trigger_code(case['tp'])
+        return 'both/' + ('uninterpretable' if cd is None else 'service-cannot-convert' if sv is None else
+                          'odd-type-text' if any('type_name' in m for m in case['tp']['metrics']) else
                           '%d-actions' % len(spec_actions(case['tp'])))
     if k == 'providers':
         n_m = len(case['tp']['metrics'])
@@ -1476,6 +1611,8 @@ def label(case, obs):
 
 
 def nontrivial(case, obs):
+    if case['kind'] == 'regodd':
+        return False
     if case['kind'] == 'redeliver':
         exp = redeliver_expected(case, False)[1]
         return any(sum(1 for kind in e if e[kind]) >= 2 for per in exp for e in per.values())
@@ -1493,6 +1630,8 @@ def nontrivial(case, obs):
 
 def shrink(case):
     k = case['kind']
+    if k == 'regodd':
+        return
     if k == 'argint':
         for key in list(case['args']):
             yield dict(case, args={a: b for a, b in case['args'].items() if a != key})
